@@ -140,4 +140,16 @@ CHECKS = {
            "both sides. Not decided: interactions between dimensions beyond the combined model."),
   "design_ref": "DESIGN.md §5 C01", "note": _NOTE + " The generated UVL lexer/parser of the uvl package is trusted as the grammar.",
   "technique": "static analysis: writer/reader agreement (CODEC) by evaluating both transformation ASTs over finite abstractions of every carried dimension; generated recogniser used as the grammar table between them"},
+ "C04": {
+  "text": ("UVLReader.transform is evaluated from source on documents emitted by an independent reference emitter "
+           "(written against the UVL language definition) from a reference abstract model using every construct the "
+           "property names, under all 32 combinations of surface choices (quote every identifier, redundant "
+           "parentheses, several children under one group keyword, line comments, namespace/include/imports "
+           "headers); the model read must equal the reference model (constraints by truth table / identical trees) "
+           "and be well-formed. Documents made invalid by construction (8 kinds incl. stray characters) must make "
+           "transform raise. Every labelled alternative of the grammar's group/constraint/expression/equation/"
+           "aggregate rules (read from the generated parser's source) is dispatched by the reader. Not decided: "
+           "conformance of the generated recogniser to the language definition."),
+  "design_ref": "DESIGN.md §5 C04", "note": _NOTE + " The generated UVL lexer/parser of the uvl package is trusted as the grammar.",
+  "technique": "static analysis: reader AST evaluated over recogniser parse trees of reference documents (all surface-choice combinations) and invalid documents; grammar-alternative exhaustiveness from the generated parser source"},
 }
